@@ -410,6 +410,46 @@ def cell_of(nz, term, idx):
                 return cell_of(nz, part, (idx[0] - off,))
             off += sh[0]
         return None
+    # 2-D assembly: vstack / hstack / concatenate(axis=...) of parts with known constant shapes, and (n,) <-> (n,1) reshapes
+    if k == 'call' and term[1] in ('numpy.vstack', 'numpy.hstack', 'numpy.concatenate') and len(term[2]) >= 1 and term[2][0][0] in ('tuple', 'list') and len(idx) == 2:
+        kw = dict(term[3]) if len(term) > 3 else {}
+        axis = 0 if term[1] == 'numpy.vstack' else (1 if term[1] == 'numpy.hstack' else None)
+        if axis is None:
+            ax = kw.get('axis', num(0))
+            axis = int(ax[1]) if is_num(ax) else None
+        if axis in (0, 1):
+            off = 0
+            for part in term[2][0][1]:
+                sh = nz.shape(part)
+                if sh is None or not all(isinstance(x, int) for x in sh) or len(sh) not in (1, 2):
+                    return None
+                if len(sh) == 1:
+                    if axis != 0 or term[1] != 'numpy.vstack':
+                        return None
+                    sh2 = (1, sh[0])                          # vstack treats a 1-D part as one row
+                else:
+                    sh2 = sh
+                n_ = sh2[axis]
+                if off <= idx[axis] < off + n_:
+                    sub = list(idx)
+                    sub[axis] -= off
+                    return cell_of(nz, part, (sub[1],) if len(sh) == 1 else tuple(sub))
+                off += n_
+            return None
+    if k == 'call' and (term[1] == ('meth', 'reshape') or term[1] == 'numpy.reshape') and len(term[2]) >= 2:
+        base = term[2][0]
+        tgt = term[2][1] if len(term[2]) == 2 else ('tuple', tuple(term[2][1:]))
+        dims = [int(x[1]) for x in tgt[1]] if (tgt[0] == 'tuple' and all(is_num(x) for x in tgt[1])) else ([int(tgt[1])] if is_num(tgt) else None)
+        bsh = nz.shape(base)
+        if dims is not None and len(dims) == len(idx):
+            if len(dims) == 2 and dims[1] == 1 and idx[1] == 0 and (bsh is None or len(bsh) == 1 or (len(bsh) == 2 and bsh[1] == 1)):
+                c_ = cell_of(nz, base, (idx[0],) if (bsh is None or len(bsh) == 1) else (idx[0], 0))
+                if c_ is not None or bsh is not None:
+                    return c_
+            if len(dims) == 1 and bsh is not None and len(bsh) == 2 and bsh[1] == 1:
+                return cell_of(nz, base, (idx[0], 0))
+            if len(dims) == 1 and bsh is not None and len(bsh) == 1:
+                return cell_of(nz, base, idx)
     sh = nz.shape(term)
     if sh is None:
         return None
